@@ -464,6 +464,7 @@ func c05Sentinels(algos []struct {
 			h := c05Base(a.name, a.mule, s.universe)
 			if s.pat == "slow" {
 				h.tickPause = 300 * time.Millisecond
+				h.realTimeLimit = 4500 * time.Millisecond // the bundle lives 12 s
 			}
 			// first attempts fail, later ones succeed (and the other way round for the second half)
 			h.oracle = map[[2]int]string{}
